@@ -1,6 +1,6 @@
 (* C18 - message listing is one total order; pages partition it; out-of-range limits are refused.
    ONLY statements (storage contract level; the last-message pointer invariant of the engine is in Props/C18e.v). *)
-From MDK Require Import Base.Prelude Base.AMap Store.Contract Store.ContractSpec Store.ContractProofs.
+From MDK Require Import Base.Prelude Base.AMap Store.Contract Store.ContractSpec Store.ContractProofs Store.SqlTie.
 
 (* the sort key order is a strict total order *)
 Theorem C18_order_irreflexive : forall a, ~ key_gt a a.
@@ -52,3 +52,8 @@ Theorem C18_last_is_head : forall s g sort, has_group s g = true ->
   RMsg (match snd (step s (Messages g MAX_LIMIT 0 sort)) with RMsgs (m :: _) => Some m | _ => None end).
 Proof. exact last_is_head. Qed.
 Print Assumptions C18_last_is_head.
+
+(* the SQLite backend's SQL text (ORDER BY clauses, FK cascades, restore statement plan) is the one the contract assumes *)
+Theorem C18_sql_order_tied : sql_tie_statement.
+Proof. exact sql_tie. Qed.
+Print Assumptions C18_sql_order_tied.
